@@ -289,3 +289,294 @@ Proof.
 Qed.
 
 End RelAuthorityS.
+
+(* ================= the two path arms ================= *)
+Lemma pop_path_segments_s pre P : forallb no_slash P = true ->
+  pop_path STSpecialNotFile (nlen pre) (pre ++ flat_map (fun s => 47 :: s) P)
+  = POk (match P with [] => pre | _ => Bs pre (removelast P) end).
+Proof.
+  intros Hns. unfold pop_path.
+  destruct (rev P) as [|x r] eqn:Er.
+  - assert (P = []) as -> by (rewrite <- (rev_involutive P), Er; reflexivity).
+    cbn [flat_map]. rewrite app_nil_r. replace (nlen pre <? nlen pre) with false by lia. reflexivity.
+  - assert (P = rev r ++ [x]) as EP by (rewrite <- (rev_involutive P), Er; reflexivity).
+    set (P' := rev r) in *. rewrite EP in *. rewrite removelast_last.
+    rewrite forallb_app in Hns. apply andb_true_iff in Hns. destruct Hns as [_ Hx].
+    cbn [forallb] in Hx. rewrite andb_true_r in Hx.
+    rewrite flat_map_snoc. set (X := flat_map (fun s => 47 :: s) P').
+    replace (nlen pre <? nlen (pre ++ X ++ 47 :: x)) with true by (symmetry; apply N.ltb_lt; lenl).
+    rewrite nskipn_app_len. rewrite (rfind_app_last 47 X x) by exact Hx.
+    cbn [st_is_file andb]. unfold truncate.
+    replace (nlen pre + nlen X + 1) with (nlen ((pre ++ X) ++ [47])) by lenl.
+    replace (pre ++ X ++ 47 :: x) with (((pre ++ X) ++ [47]) ++ x) by (rewrite <- !app_assoc; reflexivity).
+    rewrite nfirstn_app_len. rewrite Bs_flat.
+    destruct (P' ++ [x]) eqn:E; [destruct P'; discriminate E | reflexivity].
+Qed.
+
+Lemma segs_no_qh_of_flat (P : list (list N)) :
+  forallb C06_WFI.no_qh (flat_map (fun s => 47 :: s) P) = true -> forallb C01_EqSpPath.no_qh P = true.
+Proof.
+  induction P as [|s P IH]; intros H; [reflexivity|]. cbn [flat_map] in H. cbn [app forallb] in H.
+  apply andb_true_iff in H. destruct H as [_ H]. rewrite forallb_app in H. apply andb_true_iff in H. destruct H as [H1 H2].
+  cbn [forallb]. rewrite (IH H2), andb_true_r. exact H1.
+Qed.
+
+Lemma loop_from_segments_s dbg pre r P0 : usv_list r -> forallb no_slash P0 = true ->
+  spath_ok_s (ntnl r) P0 [] = true ->
+  forallb C06_WFI.no_qh (flat_map (fun s => 47 :: s) P0) = true ->
+  let P1 := fst (spath_s (ntnl r) P0 []) in
+  parse_path dbg CUrlParser STSpecialNotFile true (nlen pre) (Bs pre P0) r
+    = POk (pre ++ flat_map (fun s => 47 :: s) P1, true, cbb_rest r)
+  /\ snd (spath_s (ntnl r) P0 []) = ntnl (cbb_rest r)
+  /\ forallb C06_WFI.no_qh (flat_map (fun s => 47 :: s) P1) = true
+  /\ forallb no_slash P1 = true /\ P1 <> [].
+Proof.
+  intros Hur Hns Hok Hqh P1.
+  assert (pend_ok []) as Hp0 by (split; [constructor | reflexivity]).
+  destruct (loop_exact_s pre dbg r P0 [] [] true Hur Hp0 Hns eq_refl Hok) as (segs & last & Hloop & Hfst & Hsnd).
+  cbn [app rev utf8_encode flat_map encode] in Hfst, Hsnd.
+  rewrite app_nil_r in Hloop.
+  assert (Bs pre segs ++ last = pre ++ flat_map (fun s => 47 :: s) P1) as ES.
+  { unfold P1. rewrite Hfst, path_text_flat. unfold Bs, path_text. rewrite <- !app_assoc. reflexivity. }
+  split; [|split; [exact Hsnd|split; [|split]]].
+  - unfold parse_path. rewrite Hloop, ES. reflexivity.
+  - apply flat_no_qh. unfold P1. apply spath_s_no_qh; [exact (segs_no_qh_of_flat P0 Hqh) | reflexivity].
+  - unfold P1. apply spath_s_no_slash; [exact Hns | reflexivity].
+  - unfold P1. rewrite Hfst. intros K. apply app_eq_nil in K. destruct K as [_ K]. discriminate K.
+Qed.
+
+Lemma wqf_plain_s se ue hs he hi po ps s rest : se + 3 <= ps ->
+  starts_with s_css (nskipn se s) = true ->
+  with_query_and_fragment None CUrlParser STSpecialNotFile se ue hs he hi po ps s rest
+  = (' (s2, qs, fs) <~ parse_query_and_fragment None CUrlParser STSpecialNotFile se s rest ;;
+     POk (mkUrl s2 se ue hs he hi po ps qs fs)).
+Proof.
+  intros H Hc. unfold with_query_and_fragment.
+  replace (ps =? se + 1) with false by lia.
+  assert ((ps =? se + 3) && list_eqb (nfirstn (ps - se) (nskipn se s)) [58; 47; 46] = false) as ->.
+  { destruct (ps =? se + 3) eqn:E; [|reflexivity]. cbn [andb]. apply N.eqb_eq in E. rewrite E.
+    replace (se + 3 - se) with 3 by lia. apply starts_with_split in Hc. rewrite Hc. reflexivity. }
+  cbn [pbind]. reflexivity.
+Qed.
+
+Section ArmsS.
+Variable dbg : bool.
+Variable shs : spec_host -> list N.
+
+Definition arm_expr_s (b : url) (s0 r : list N) : pres url :=
+  ' (s, _, rem) <~ parse_path dbg CUrlParser STSpecialNotFile true (path_start b) s0 r ;;
+  with_query_and_fragment None CUrlParser STSpecialNotFile (scheme_end b) (username_end b) (host_start b) (host_end b)
+                          (hosti b) (port b) (path_start b) s rem.
+
+Theorem path_arm_related_s b sb h P0 r :
+  related dbg shs b sb -> has_opaque_path sb = false -> is_special_scheme (su_scheme sb) = true ->
+  list_eqb (su_scheme sb) str_file = false -> su_host sb = Some h ->
+  scheme_canon (su_scheme sb) = true ->
+  usv_list r -> forallb no_slash P0 = true -> forallb C06_WFI.no_qh (flat_map (fun s => 47 :: s) P0) = true ->
+  spath_ok_s (ntnl r) P0 [] = true ->
+  exists u, oob (U32_MAX_P < nlen (ser u)) (arm_expr_s b (Bs (nfirstn (path_start b) (ser b)) P0) r) u
+            /\ related dbg shs u (rel_path_result_s sb P0 (ntnl r))
+            /\ spec_base_ok (rel_path_result_s sb P0 (ntnl r)) = true.
+Proof.
+  intros R Hop Hsp Hnf Eh Hcan Hur Hns0 Hqh0 Hok.
+  pose proof (rel_wf _ _ _ _ R) as W. pose proof (path_start_le_len b W) as Lps.
+  set (pre := nfirstn (path_start b) (ser b)).
+  assert (nlen pre = path_start b) as Lpre by (apply nlen_nfirstn; exact Lps).
+  destruct (loop_from_segments_s dbg pre r P0 Hur Hns0 Hok Hqh0) as (Hpp & Hsnd & Hqh1 & Hns1 & Hne1).
+  rewrite Lpre in Hpp.
+  set (P1 := fst (spath_s (ntnl r) P0 [])) in *.
+  set (T := flat_map (fun s => 47 :: s) P1) in *.
+  set (rest := cbb_rest r) in *.
+  set (q := pqf_q STSpecialNotFile rest). set (f := pqf_f rest).
+  assert (usv_list rest) as Hurest by (apply usv_cbb_rest; exact Hur).
+  assert (rel_path_result_s sb P0 (ntnl r) = rel_url sb P1 q f) as ES.
+  { unfold rel_path_result_s. fold P1. rewrite Hsnd. fold rest.
+    rewrite tail_url_sp; [reflexivity | unfold is_special, rel_keep; cbn [su_scheme]; exact Hsp | reflexivity | reflexivity | apply cbb_rest_head]. }
+  rewrite ES.
+  assert (spec_base_ok (rel_url sb P1 q f) = true) as HBok.
+  { unfold spec_base_ok, rel_url. cbn [su_scheme Whatwg.path_segments su_path]. rewrite Hcan, Hns1. reflexivity. }
+  assert (match ntnl rest with [] => True | c :: _ => is_qh c = true end) as Hhead.
+  { pose proof (cbb_rest_head r) as Hh. fold rest in Hh. destruct rest as [|d dr]; [exact I|]. destruct Hh as [Hh1 Hh2].
+    rewrite ntnl_cons by exact Hh2. exact Hh1. }
+  assert (has_authority_b b = true) as Ha by (rewrite (related_host_iff dbg shs b sb R), Eh; reflexivity).
+  pose proof (wf_auth_facts b W Ha) as F.
+  pose proof (af_ue F) as B1. pose proof (af_hs F) as B2. pose proof (af_he F) as B3. pose proof (af_ps F) as B4.
+  unfold arm_expr_s. fold pre. rewrite Hpp. cbn [pbind].
+  exists (auth_path_url b T q f). split; [|split; [|exact HBok]].
+  - rewrite wqf_plain_s; [|lia|].
+    2:{ unfold has_authority_b in Ha. rewrite <- Ha.
+        apply (pre_starts_with (path_start b)); [|change (nlen s_css) with 3; lia].
+        apply agree_pre_nfirstn. exact Lps. }
+    eapply oob_bind.
+    { apply (pqf_oob None (U32_MAX_P < nlen (ser (auth_path_url b T q f)))); [exact Hurest | reflexivity | exact Hhead |].
+      fold q f. intros Hlt. exact Hlt. }
+    fold q f. right. reflexivity.
+  - apply (related_auth_path_g dbg shs b sb h P1 q f R); [| exact Eh | exact Hqh1 | exact Hne1 |].
+    + intros E. rewrite E in Hnf. discriminate Hnf.
+    + pose proof (pqf_q_clean_s rest Hurest) as Hq. fold q in Hq. destruct q as [Q|]; [|exact I].
+      exact (clean_query_no_h STSpecialNotFile Q Hq).
+Qed.
+
+End ArmsS.
+
+(* ================= the classes ================= *)
+(* recognisers on the Standard's side: base not opaque, special, not file, WITH a host (true of every
+   parse result with a special scheme); exclusion, in both: a ".." that would pop a drive-letter-shaped
+   segment (F-C01-9, Known_C01 class 2) - spath_ok_s runs the Standard's own special path state *)
+Definition sp_base_ok (sb : spec_url) : bool :=
+  negb (has_opaque_path sb) && is_special_scheme (su_scheme sb) && negb (list_eqb (su_scheme sb) str_file)
+  && opt_is_some (su_host sb).
+
+Definition in_class_rel_abs_s (sb : spec_url) (input : list N) : bool :=
+  sp_base_ok sb
+  && match spec_clean input with
+     | c :: t => is_sl c && negb (match t with c2 :: _ => is_sl c2 | [] => false end) && spath_ok_s t [] []
+     | [] => false
+     end.
+
+Definition in_class_rel_path_s (sb : spec_url) (input : list N) : bool :=
+  sp_base_ok sb
+  && match spec_scheme (spec_clean input) with None => true | Some _ => false end
+  && match spec_clean input with
+     | c :: t => negb (is_sl c) && negb (c =? 63) && negb (c =? 35)
+                 && spath_ok_s (c :: t) (removelast (Whatwg.path_segments sb)) []
+     | [] => false
+     end.
+
+Lemma sp_base_ok_facts sb : sp_base_ok sb = true ->
+  has_opaque_path sb = false /\ is_special_scheme (su_scheme sb) = true /\ list_eqb (su_scheme sb) str_file = false
+  /\ exists h, su_host sb = Some h.
+Proof.
+  unfold sp_base_ok. intros H. apply andb_true_iff in H. destruct H as [H H4]. apply andb_true_iff in H. destruct H as [H H3].
+  apply andb_true_iff in H. destruct H as [H1 H2]. apply negb_true_iff in H1, H3.
+  repeat split; try assumption. destruct (su_host sb) as [h|]; [exists h; reflexivity | discriminate H4].
+Qed.
+
+Lemma removelast_prefix_no_qh_s (P : list (list N)) :
+  forallb C06_WFI.no_qh (flat_map (fun s => 47 :: s) P) = true ->
+  forallb C06_WFI.no_qh (flat_map (fun s => 47 :: s) (removelast P)) = true.
+Proof.
+  intros H. destruct (rev P) as [|x r] eqn:Er.
+  - assert (P = []) as -> by (rewrite <- (rev_involutive P), Er; reflexivity). reflexivity.
+  - assert (P = rev r ++ [x]) as -> by (rewrite <- (rev_involutive P), Er; reflexivity).
+    rewrite removelast_last. rewrite flat_map_snoc, forallb_app in H. apply andb_true_iff in H. tauto.
+Qed.
+
+Section RelClassesS.
+Variable dbg : bool.
+Variable hp hpo : list N -> result host.
+Variable hd : host -> list N.
+Variable shp : bool -> list N -> option spec_host.
+Variable shs : spec_host -> list N.
+
+Theorem class_rel_abs_s input b sb : usv_list input -> related dbg shs b sb ->
+  scheme_canon (su_scheme sb) = true -> in_class_rel_abs_s sb input = true ->
+  exists su, spec_basic_url_parse shp input (Some sb) = BDone su /\ spec_base_ok su = true
+    /\ agree_rel_strict dbg shs (parse_url dbg hp hpo hd None (Some b) input) (BDone su).
+Proof.
+  intros Hu R Hcan Hc. unfold in_class_rel_abs_s in Hc.
+  apply andb_true_iff in Hc. destruct Hc as [Hb Hok].
+  destruct (sp_base_ok_facts sb Hb) as (Hop & Hsp & Hnf & h & Eh).
+  destruct (spec_clean input) as [|c t] eqn:Ecl; [discriminate Hok|].
+  apply andb_true_iff in Hok. destruct Hok as [Hok Hspok]. apply andb_true_iff in Hok. destruct Hok as [Hc1 Ht].
+  apply negb_true_iff in Ht.
+  assert (match t with c2 :: _ => is_sl c2 = false | [] => True end) as Ht' by (destruct t; [exact I | exact Ht]).
+  pose proof (is_sl_scheme_none c t Hc1) as Hs.
+  exists (rel_path_result_s sb [] t).
+  assert (spec_basic_url_parse shp input (Some sb) = BDone (rel_path_result_s sb [] t)) as HS.
+  { apply spec_parse_of_runs. rewrite Ecl. exact (runs_rel_abs_s shp _ sb Hop Hsp Hnf c t eq_refl Hc1 Ht' Hs). }
+  split; [exact HS|].
+  (* the model *)
+  pose proof (rel_wf _ _ _ _ R) as W. pose proof (path_start_le_len b W) as Lps.
+  rewrite spec_clean_is_ntnl_trim in Ecl. set (l0 := input_new_trim_c0 input) in *.
+  assert (usv_list l0) as Hul0 by (apply usv_trim; exact Hu).
+  destruct (inp_next_some l0 c t Ecl) as (r1 & En & Er1 & _).
+  pose proof (inp_next_usv l0 c r1 Hul0 En) as Hur1.
+  assert ((c =? 35) = false) as E35 by (unfold is_sl in Hc1; lia).
+  assert ((c =? 63) = false) as E63 by (unfold is_sl in Hc1; lia).
+  assert (parse_url dbg hp hpo hd None (Some b) input
+          = arm_expr_s dbg b (Bs (nfirstn (path_start b) (ser b)) []) r1) as Epu.
+  { rewrite (parse_url_relative_s dbg hp hpo hd None b input c t
+               (related_not_cbb dbg shs b sb R Hop) (special_type_related dbg shs b sb R Hsp Hnf) Ecl Hs E35).
+    fold l0. unfold parse_relative, inp_split_first. rewrite En. rewrite E63, E35.
+    cbn [st_is_special]. fold (sl_sp c). rewrite (sl_sp_is_sl c), Hc1.
+    change (fun d : N => (d =? 47) || (d =? 92) && true) with sl_sp.
+    destruct (inp_count_matching sl_sp l0) as [sl rem'] eqn:Ecm.
+    assert (sl < 2) as Hsl.
+    { pose proof (inp_count_matching_fst sl_sp l0) as Hf. rewrite Ecm in Hf. cbn [fst] in Hf. rewrite Hf, Ecl.
+      rewrite (count_leading_ext sl_sp is_sl _ sl_sp_is_sl). cbn [count_leading]. rewrite Hc1.
+      destruct t as [|d t']; [cbn [count_leading]; lia|]. cbn [count_leading]. rewrite Ht. lia. }
+    replace (2 <=? sl) with false by lia.
+    unfold arm_expr_s. assert (Bs (nfirstn (path_start b) (ser b)) [] = nfirstn (path_start b) (ser b) ++ [47]) as ->
+      by (unfold Bs; cbn [segs_text map concat]; apply app_nil_r).
+    reflexivity. }
+  rewrite <- Er1 in Hspok.
+  destruct (path_arm_related_s dbg shs b sb h [] r1 R Hop Hsp Hnf Eh Hcan Hur1 eq_refl eq_refl Hspok) as (u & HO & Ru & Hbo).
+  rewrite Er1 in Ru, Hbo. split; [exact Hbo|]. rewrite Epu. exact (oob_agree dbg shs _ u _ HO Ru).
+Qed.
+
+Theorem class_rel_path_s input b sb : usv_list input -> related dbg shs b sb ->
+  spec_base_ok sb = true -> in_class_rel_path_s sb input = true ->
+  exists su, spec_basic_url_parse shp input (Some sb) = BDone su /\ spec_base_ok su = true
+    /\ agree_rel_strict dbg shs (parse_url dbg hp hpo hd None (Some b) input) (BDone su).
+Proof.
+  intros Hu R Hbok Hc. unfold in_class_rel_path_s in Hc.
+  apply andb_true_iff in Hbok. destruct Hbok as [Hcan HnsP].
+  apply andb_true_iff in Hc. destruct Hc as [Hc Hok]. apply andb_true_iff in Hc. destruct Hc as [Hb Hsch].
+  destruct (sp_base_ok_facts sb Hb) as (Hop & Hsp & Hnf & h & Eh).
+  assert (spec_scheme (spec_clean input) = None) as Hs by (destruct (spec_scheme (spec_clean input)); [discriminate | reflexivity]).
+  destruct (spec_clean input) as [|c t] eqn:Ecl; [discriminate Hok|].
+  apply andb_true_iff in Hok. destruct Hok as [Hok Hspok]. apply andb_true_iff in Hok. destruct Hok as [Hok E35].
+  apply andb_true_iff in Hok. destruct Hok as [Esl E63]. apply negb_true_iff in Esl, E63, E35.
+  set (P := Whatwg.path_segments sb) in *.
+  exists (rel_path_result_s sb (removelast P) (c :: t)).
+  assert (spec_basic_url_parse shp input (Some sb) = BDone (rel_path_result_s sb (removelast P) (c :: t))) as HS.
+  { apply spec_parse_of_runs. rewrite Ecl.
+    exact (runs_rel_path_s shp (c :: t) sb Hop Hsp Hnf c t eq_refl Hs Esl E63 E35). }
+  split; [exact HS|].
+  (* the model *)
+  pose proof (rel_wf _ _ _ _ R) as W. pose proof (path_start_le_len b W) as Lps.
+  set (pre := nfirstn (path_start b) (ser b)).
+  assert (nlen pre = path_start b) as Lpre by (apply nlen_nfirstn; exact Lps).
+  destruct (related_pre dbg shs b sb R) as [Ebq _]. fold pre in Ebq.
+  assert (serialize_path sb = flat_map (fun s => 47 :: s) P) as EPth.
+  { unfold serialize_path, P, Whatwg.path_segments. unfold has_opaque_path in Hop. destruct (su_path sb); [discriminate Hop | reflexivity]. }
+  rewrite EPth in Ebq.
+  assert (forallb C06_WFI.no_qh (flat_map (fun s => 47 :: s) P) = true) as HqhP.
+  { pose proof (qf_facts_of b W) as (_ & _ & _ & Q4 & _).
+    pose proof (before_query_path_end b W) as E. rewrite Ebq in E.
+    destruct (wf_ps_le_path_end b W) as [L1 L2].
+    assert (nfirstn (path_end b - path_start b) (nskipn (path_start b) (ser b)) = flat_map (fun s => 47 :: s) P) as EE.
+    { rewrite <- (nfirstn_nskipn (path_start b) (nfirstn (path_end b) (ser b))) in E.
+      rewrite nfirstn_nfirstn in E by lia. fold pre in E. apply app_inv_head in E. rewrite E.
+      unfold nskipn, nfirstn. rewrite N2Nat.inj_sub. rewrite firstn_skipn_comm.
+      replace (N.to_nat (path_start b) + (N.to_nat (path_end b) - N.to_nat (path_start b)))%nat with (N.to_nat (path_end b)) by lia.
+      reflexivity. }
+    rewrite EE in Q4. exact Q4. }
+  rewrite spec_clean_is_ntnl_trim in Ecl. set (l0 := input_new_trim_c0 input) in *.
+  assert (usv_list l0) as Hul0 by (apply usv_trim; exact Hu).
+  destruct (inp_next_some l0 c t Ecl) as (r1 & En & Er1 & _).
+  pose proof (special_type_related dbg shs b sb R Hsp Hnf) as Hstb.
+  assert ((c =? 47) = false) as E47 by (unfold is_sl in Esl; lia).
+  assert (parse_url dbg hp hpo hd None (Some b) input = arm_expr_s dbg b (Bs pre (removelast P)) l0) as Epu.
+  { rewrite (parse_url_relative_s dbg hp hpo hd None b input c t
+               (related_not_cbb dbg shs b sb R Hop) Hstb Ecl Hs E35).
+    fold l0. unfold parse_relative, inp_split_first. rewrite En. rewrite E63, E35.
+    cbn [st_is_special]. fold (sl_sp c). rewrite (sl_sp_is_sl c), Esl.
+    rewrite Ebq, <- Lpre.
+    rewrite (pop_path_segments_s pre P HnsP). cbn [pbind].
+    rewrite Hstb. cbn [st_is_special orb]. rewrite andb_true_r.
+    rewrite match47, E47. unfold arm_expr_s. rewrite <- Lpre.
+    destruct P as [|p0 Pr] eqn:EP.
+    - rewrite N.eqb_refl. cbn [removelast].
+      assert (Bs pre [] = pre ++ [47]) as -> by (unfold Bs; cbn [segs_text map concat]; apply app_nil_r).
+      reflexivity.
+    - pose proof (Bs_len_ge pre (removelast (p0 :: Pr))) as Lb.
+      replace (nlen (Bs pre (removelast (p0 :: Pr))) =? nlen pre) with false by lia. reflexivity. }
+  rewrite <- Ecl in Hspok.
+  destruct (path_arm_related_s dbg shs b sb h (removelast P) l0 R Hop Hsp Hnf Eh Hcan Hul0
+              (no_slash_removelast P HnsP) (removelast_prefix_no_qh_s P HqhP) Hspok) as (u & HO & Ru & Hbo).
+  fold pre in HO. rewrite Ecl in Ru, Hbo. split; [exact Hbo|]. rewrite Epu. exact (oob_agree dbg shs _ u _ HO Ru).
+Qed.
+
+End RelClassesS.
